@@ -155,7 +155,9 @@ def simulate(desc):
         async def cycle(vec):
             """vec: the 14 model-level inputs (clear-halt as one bit; new_token last, 0 when omitted)"""
             v = (list(vec) + [0])[:14]
-            full = v[:11] + [v[11], 0, EP] + [v[12], v[13]]
+            # clear-halt column: 0 none, 1 ClearFeature(ENDPOINT_HALT) for this OUT endpoint, 2 the same request naming
+            # the IN endpoint with this number, 3 naming another OUT endpoint (2 and 3 are no clear-halt for the model)
+            full = v[:11] + [int(v[11] != 0), int(v[11] == 2), (EP + 1) % 16 if v[11] == 3 else EP] + [v[12], v[13]]
             for sig, x in zip(ins, full):
                 ctx.set(sig, x)
             r = tuple(int(ctx.get(o)) for o in outs)
@@ -178,10 +180,13 @@ def simulate(desc):
         tok = [EP, 1, 0]           # tokenizer endpoint, is_out, is_ping (held between tokens)
         pid = [0]
 
+        def foreign_clear():
+            return rng.weighted([(40, 0), (1, 2), (1, 3)])
+
         async def idle(n, **kw):
             for _ in range(n):
                 await cycle([0, 0, 0, 0, 0, kw.get("rxr", 0), pid[0], tok[0], tok[1], tok[2], kw.get("tokr", 0),
-                             kw.get("clr", 0), h.rdy(), kw.get("new", 0)])
+                             kw.get("clr", foreign_clear()), h.rdy(), kw.get("new", 0)])
 
         async def data_packet(payload, ok, dly):
             dense = rng.chance(40)
@@ -339,7 +344,7 @@ def derive_log(stim, rows, mps):
             pend = None
         if tokr:
             log.append({"ping": 1, "ep": ep, "isping": ping, "ack": r[0], "nak": r[1], "at": t})
-        if clr:
+        if clr == 1:
             log.append({"clear": 1, "at": t})
     return log
 
